@@ -18,6 +18,10 @@ type RefEntry struct {
 	Signer    string
 	Approvers []string
 	Credited  map[string]bool
+	// tag entries
+	TagObject    int  // event that created the tag object this entry records
+	TagSignerOK  bool // the tag object is signed by a principal of a consulted rule
+	CurrentAtEnd bool // the tag ref still points at this entry's tag object at the end of the history
 }
 
 // Verdict of the reference model for one reference.
@@ -32,7 +36,7 @@ type Verdict struct {
 type approvalKey struct {
 	Ref      string
 	FromPush int
-	Content  string
+	Content  string // tree content, or "tag:<push event>" for tag approvals
 }
 
 // RefEntries computes, in log order, the entries for ref with their validity
@@ -56,6 +60,13 @@ func RefEntries(h *scen.History, ref string) []RefEntry {
 			pol = ev.Policy
 		case "approve":
 			k := approvalKey{ev.Ref, ev.FromPush, ev.Content}
+			if ev.TagOn > 0 {
+				from := ev.FromPush
+				if from >= 0 && h.Events[from].Kind == "tag" && h.Events[from].Reuse > 0 {
+					from = h.Events[from].Reuse - 1
+				}
+				k = approvalKey{ev.Ref, from, fmt.Sprintf("tag:%d", ev.TagOn-1)}
+			}
 			if approvals[k] == nil {
 				approvals[k] = map[string]bool{}
 			}
@@ -72,12 +83,51 @@ func RefEntries(h *scen.History, ref string) []RefEntry {
 					e.Approvers = append(e.Approvers, a)
 				}
 			}
+			if ev.Kind == "tag" {
+				e.TagObject = i
+				if ev.Reuse > 0 {
+					e.TagObject = ev.Reuse - 1
+				}
+				// the approval names (ref, from = object recorded by the previous entry, to = tagged commit)
+				from := lastPush
+				if from >= 0 && h.Events[from].Kind == "tag" && h.Events[from].Reuse > 0 {
+					from = h.Events[from].Reuse - 1
+				}
+				for a := range approvals[approvalKey{ref, from, fmt.Sprintf("tag:%d", h.Events[e.TagObject].OnPush)}] {
+					e.Approvers = append(e.Approvers, a)
+				}
+			}
 			if pol != nil {
 				e.Protected, e.Valid, e.Credited = Authorized(*pol, "git:"+ref, ev.Signer, e.Approvers)
+				if ev.Kind == "tag" {
+					// the tag object itself must carry the signature of one principal of a consulted rule
+					ts := h.Events[e.TagObject].TagSigner
+					if !e.Protected {
+						e.TagSignerOK = true
+					} else if ts != "" {
+						idx := pol.PrincipalIndex()
+						for _, cr := range Consulted(*pol, "git:"+ref) {
+							if len(owners(idx, cr.Rule, ts)) > 0 && cr.Rule.Threshold >= 1 {
+								e.TagSignerOK = true
+							}
+						}
+					}
+					e.Valid = e.Valid && e.TagSignerOK
+				}
 			}
 			out = append(out, e)
 			lastPush = i
 		}
+	}
+	// which tag object does the ref hold at the end?
+	final := -1
+	for _, e := range out {
+		if e.Kind == "tag" {
+			final = e.TagObject
+		}
+	}
+	for i := range out {
+		out[i].CurrentAtEnd = out[i].Kind == "tag" && out[i].TagObject == final
 	}
 	return out
 }
@@ -136,8 +186,27 @@ func EvalRefFrom(h *scen.History, ref string, startEvent int) Verdict {
 			return v
 		}
 		if e.Kind == "tag" {
-			v.Judged = false
-			v.Reason = "tag entry (judged by the tag model)"
+			if !e.HasPolicy {
+				v.Judged = false
+				v.Reason = "entry recorded before any policy exists"
+				return v
+			}
+			if !e.CurrentAtEnd {
+				v.Judged = false
+				v.Reason = "tag entry that does not match the current tag ref (not judged)"
+				return v
+			}
+			if e.Valid {
+				i++
+				continue
+			}
+			if e.Skipped {
+				v.Judged = false
+				v.Reason = "revoked tag entry (recovery of tags is not modelled)"
+				return v
+			}
+			v.Accept = false
+			v.Reason = fmt.Sprintf("event %d (tag entry) unauthorized", e.Event)
 			return v
 		}
 		if !e.HasPolicy {
